@@ -15,6 +15,28 @@ Proof.
   apply IH. simpl in Hj. lia.
 Qed.
 
+(* ------------------------------------------------------------ the fast record splitter is the specification *)
+Lemma split_at_fast_eq d : forall bs cur, split_at_fast d bs cur = split_at d bs cur.
+Proof.
+  induction bs as [|b bs IH]; intros cur; simpl.
+  - rewrite <- rev_alt. reflexivity.
+  - destruct (b =? d)%Z.
+    + rewrite IH. rewrite <- rev_alt. reflexivity.
+    + apply IH.
+Qed.
+
+Lemma strip_cr_fast_eq l : strip_cr_fast l = strip_cr l.
+Proof. unfold strip_cr_fast, strip_cr. rewrite <- rev_alt. destruct (rev l) as [|x r]; [reflexivity|]. rewrite <- rev_alt. reflexivity. Qed.
+
+Lemma records_fast_eq d cr bs : records_fast d cr bs = records d cr bs.
+Proof.
+  unfold records_fast, records. rewrite split_at_fast_eq. destruct (split_at d bs []) as [rs t].
+  f_equal. destruct cr; [|reflexivity]. apply map_ext. apply strip_cr_fast_eq.
+Qed.
+
+Lemma shard_tool_fast_eq keyhash n input : shard_tool_fast keyhash n input = shard_tool keyhash n input.
+Proof. unfold shard_tool_fast, shard_tool. rewrite records_fast_eq. reflexivity. Qed.
+
 Section ShardProofs.
   Variable keyhash : list Z -> N.
   Notation index := (index keyhash).
@@ -315,3 +337,211 @@ Fixpoint sortedb (l : list (list Z)) : bool :=
   | a :: ((b :: _) as r) => lex_ltb a b && sortedb r
   | _ => true
   end.
+
+(* ------------------------------------------------------------ the names are sorted *)
+Ltac Zify.zify_post_hook ::= Z.div_mod_to_equations.
+Definition isdig (b : Z) : Prop := (48 <= b <= 57)%Z.
+
+Lemma lex_ltb_prefix p : forall x y, lex_ltb (p ++ x) (p ++ y) = lex_ltb x y.
+Proof.
+  induction p as [|a p IH]; intros x y; [reflexivity|].
+  simpl. rewrite Z.ltb_irrefl, Z.eqb_refl. simpl. apply IH.
+Qed.
+
+Lemma sortedb_map_seq (f : nat -> list Z) : forall n s,
+  (forall i, (s <= i)%nat -> (S i < s + n)%nat -> lex_ltb (f i) (f (S i)) = true) ->
+  sortedb (map f (seq s n)) = true.
+Proof.
+  induction n as [|n IH]; intros s H; [reflexivity|].
+  destruct n as [|n]; [reflexivity|].
+  change (sortedb (f s :: f (S s) :: map f (seq (S (S s)) n)) = true).
+  cbn [sortedb]. rewrite (H s) by lia. simpl andb.
+  change (sortedb (map f (seq (S s) (S n))) = true). apply IH. intros i H1 H2. apply H; lia.
+Qed.
+
+Lemma fold_dval_acc l : forall acc,
+  fold_left (fun a b => a * 10 + (b - 48))%Z l acc = (acc * 10 ^ Z.of_nat (length l) + dvalN l)%Z.
+Proof.
+  induction l as [|b l IH]; intros acc.
+  - simpl. unfold dvalN. simpl. lia.
+  - cbn [fold_left]. rewrite IH. unfold dvalN. cbn [fold_left]. rewrite (IH (0 * 10 + (b - 48))%Z).
+    cbn [length]. rewrite Nat2Z.inj_succ. rewrite Z.pow_succ_r by lia. unfold dvalN. lia.
+Qed.
+
+Lemma dvalN_cons b l : dvalN (b :: l) = ((b - 48) * 10 ^ Z.of_nat (length l) + dvalN l)%Z.
+Proof. unfold dvalN at 1. cbn [fold_left]. rewrite fold_dval_acc. lia. Qed.
+
+Lemma dvalN_bound l : Forall isdig l -> (0 <= dvalN l < 10 ^ Z.of_nat (length l))%Z.
+Proof.
+  intros H. induction H as [|b l Hb H IH].
+  - unfold dvalN. simpl. lia.
+  - rewrite dvalN_cons. cbn [length]. rewrite Nat2Z.inj_succ, Z.pow_succ_r by lia.
+    unfold isdig in Hb. nia.
+Qed.
+
+Lemma lex_digits : forall a b, length a = length b -> Forall isdig a -> Forall isdig b ->
+  (dvalN a < dvalN b)%Z -> lex_ltb a b = true.
+Proof.
+  induction a as [|x a IH]; intros [|y b] Hl Ha Hb Hlt; simpl in Hl; try discriminate.
+  inversion Ha as [|? ? Hx Ha']; subst. inversion Hb as [|? ? Hy Hb']; subst.
+  { rewrite !dvalN_cons in Hlt.
+    assert (Hl' : length a = length b) by lia. rewrite Hl' in Hlt.
+    pose proof (dvalN_bound a Ha') as Ba. pose proof (dvalN_bound b Hb') as Bb. rewrite Hl' in Ba.
+    cbn [lex_ltb].
+    destruct (x <? y)%Z eqn:E1; [reflexivity|].
+    destruct (x =? y)%Z eqn:E2.
+    + simpl. apply IH; auto. apply Z.eqb_eq in E2. subst. lia.
+    + exfalso. apply Z.ltb_ge in E1. apply Z.eqb_neq in E2.
+      assert (y + 1 <= x)%Z by lia. nia. }
+Qed.
+
+Lemma dec_loop_digits : forall fuel x acc, Forall isdig acc -> Forall isdig (dec_loop fuel x acc).
+Proof.
+  induction fuel as [|fuel IH]; intros x acc H; [exact H|].
+  cbn [dec_loop].
+  assert (Hd : isdig (48 + Z.of_N (x mod 10))%Z).
+  { unfold isdig. rewrite N2Z.inj_mod. pose proof (Z.mod_pos_bound (Z.of_N x) (Z.of_N 10) ltac:(lia)) as Hb.
+    change (Z.of_N 10) with 10%Z in *. lia. }
+  destruct (x / 10 =? 0); [constructor; assumption|]. apply IH. constructor; assumption.
+Qed.
+
+Lemma digits_loop_ge : forall fuel c acc, acc <= digits_loop fuel c acc.
+Proof.
+  induction fuel as [|fuel IH]; intros c acc; simpl.
+  - destruct (c =? 0); lia.
+  - destruct (c =? 0); [lia|]. specialize (IH (c / 10) (acc + 1)). lia.
+Qed.
+
+Lemma dec_len_le_digits : forall fuel x m a dacc, x <= m -> 0 < m -> m < 10 ^ N.of_nat fuel ->
+  (length (dec_loop fuel x a) - length a <= N.to_nat (digits_loop fuel m dacc) - N.to_nat dacc)%nat.
+Proof.
+  induction fuel as [|fuel IH]; intros x m a dacc Hx Hm Hb.
+  - simpl in Hb. lia.
+  - cbn [dec_loop digits_loop].
+    destruct (m =? 0) eqn:Em; [apply N.eqb_eq in Em; lia|].
+    assert (Hpow : 10 ^ N.of_nat (S fuel) = 10 * 10 ^ N.of_nat fuel).
+    { rewrite Nat2N.inj_succ. rewrite N.pow_succ_r'. reflexivity. }
+    pose proof (digits_loop_ge fuel (m / 10) (dacc + 1)) as Hge.
+    destruct (x / 10 =? 0) eqn:Ex.
+    + simpl length. lia.
+    + apply N.eqb_neq in Ex.
+      assert (Hx10 : x / 10 <= m / 10) by (apply N.div_le_mono; lia).
+      assert (Hm10 : 0 < m / 10) by lia.
+      assert (Hb10 : m / 10 < 10 ^ N.of_nat fuel) by (rewrite Hpow in Hb; apply N.div_lt_upper_bound; lia).
+      specialize (IH (x / 10) (m / 10) ((48 + Z.of_N (x mod 10))%Z :: a) (dacc + 1) Hx10 Hm10 Hb10).
+      cbn [length] in IH. lia.
+Qed.
+
+Lemma pad_facts number x : 2 <= number -> number < 4294967296 -> x < number ->
+  length (pad (digits_of number) x) = N.to_nat (digits_of number) /\
+  Forall isdig (pad (digits_of number) x) /\ dvalN (pad (digits_of number) x) = Z.of_N x.
+Proof.
+  intros H2 Hn Hx.
+  assert (Hu : u32N (Z.of_N number - 1) = number - 1).
+  { unfold u32N. rewrite Z.mod_small by lia. lia. }
+  assert (Hlen : (length (decimal x) <= N.to_nat (digits_of number))%nat).
+  { unfold decimal, digits_of. rewrite Hu.
+    assert (Hb40 : number - 1 < 10 ^ N.of_nat 40).
+    { change (10 ^ N.of_nat 40) with 10000000000000000000000000000000000000000. lia. }
+    pose proof (dec_len_le_digits 40 x (number - 1) [] 0 ltac:(lia) ltac:(lia) Hb40) as H.
+    change (length (@nil Z)) with 0%nat in H. change (N.to_nat 0) with 0%nat in H. lia. }
+  assert (Hdig : Forall isdig (decimal x)) by (apply dec_loop_digits; constructor).
+  split; [|split].
+  - unfold pad. rewrite app_length, repeat_length. lia.
+  - unfold pad. apply Forall_app. split; [|exact Hdig].
+    apply Forall_forall. intros b Hb. apply repeat_spec in Hb. subst. unfold isdig. lia.
+  - apply pad_value. change (10 ^ 40) with 10000000000000000000000000000000000000000. lia.
+Qed.
+
+(* --prefix p --number n: in index order the names are strictly increasing byte strings *)
+Theorem names_sorted prefix number : number < 4294967296 -> sortedb (names prefix number) = true.
+Proof.
+  intros Hn. unfold names.
+  destruct (N.lt_ge_cases number 2) as [Hs|Hs].
+  - (* at most one name *)
+    assert (N.to_nat number = 0%nat \/ N.to_nat number = 1%nat) as [E|E] by lia; rewrite E; reflexivity.
+  - apply sortedb_map_seq. intros i H1 H2. rewrite lex_ltb_prefix.
+    destruct (pad_facts number (N.of_nat i) Hs Hn ltac:(lia)) as [L1 [D1 V1]].
+    destruct (pad_facts number (N.of_nat (S i)) Hs Hn ltac:(lia)) as [L2 [D2 V2]].
+    apply lex_digits; auto; [lia|]. rewrite V1, V2. lia.
+Qed.
+
+(* ------------------------------------------------------------ the open finding: CR before LF
+   The tool reads lines with strip_cr = true (regenerated flag).  Byte-exact lines hold
+   for inputs without a CR directly before a LF; they fail for "a\r\n". *)
+Fixpoint no_crlf (l : list Z) : bool :=
+  match l with
+  | [] => true
+  | b :: r => match r with
+              | c :: _ => negb ((b =? 13)%Z && (c =? 10)%Z) && no_crlf r
+              | [] => true
+              end
+  end.
+
+Lemma no_crlf_tail b r : no_crlf (b :: r) = true -> no_crlf r = true.
+Proof.
+  intros H. destruct r as [|c r]; [reflexivity|].
+  change (negb ((b =? 13)%Z && (c =? 10)%Z) && no_crlf (c :: r) = true) in H.
+  apply andb_true_iff in H. tauto.
+Qed.
+
+Lemma no_crlf_head b c r : no_crlf (b :: c :: r) = true -> ~ (b = 13%Z /\ c = 10%Z).
+Proof.
+  intros H. change (negb ((b =? 13)%Z && (c =? 10)%Z) && no_crlf (c :: r) = true) in H.
+  apply andb_true_iff in H. destruct H as [H _]. apply negb_true_iff in H.
+  intros [E1 E2]. subst. discriminate.
+Qed.
+
+Lemma strip_cr_id_head cur : hd 0%Z cur <> 13%Z -> strip_cr (rev cur) = rev cur.
+Proof.
+  intros H. unfold strip_cr. rewrite rev_involutive.
+  destruct cur as [|x cur]; [reflexivity|]. simpl in H.
+  destruct x as [|p|p]; try reflexivity.
+  destruct p as [p|p|]; try reflexivity; destruct p as [p|p|]; try reflexivity;
+    destruct p as [p|p|]; try reflexivity; destruct p as [p|p|]; try reflexivity.
+  congruence.
+Qed.
+
+Lemma split_at_no_crlf : forall bs cur,
+  ~ (hd 0%Z cur = 13%Z /\ hd 0%Z bs = 10%Z) -> no_crlf bs = true ->
+  let (rs, t) := split_at 10%Z bs cur in map strip_cr rs = rs.
+Proof.
+  induction bs as [|b bs IH]; intros cur Hc Hn.
+  - simpl. reflexivity.
+  - simpl. pose proof (no_crlf_tail _ _ Hn) as Hn'.
+    destruct (b =? 10)%Z eqn:Eb.
+    + apply Z.eqb_eq in Eb. subst b.
+      assert (H0 : ~ (hd 0%Z (@nil Z) = 13%Z /\ hd 0%Z bs = 10%Z)) by (simpl; intros [E _]; discriminate).
+      specialize (IH [] H0 Hn').
+      destruct (split_at 10%Z bs []) as [rs t]. simpl. rewrite IH. f_equal.
+      apply strip_cr_id_head. intros E. apply Hc. split; [exact E|reflexivity].
+    + apply IH; [|exact Hn'].
+      simpl. intros [E1 E2]. subst b.
+      destruct bs as [|c bs]; [simpl in E2; discriminate|]. simpl in E2. subst c.
+      exact (no_crlf_head _ _ _ Hn (conj eq_refl eq_refl)).
+Qed.
+
+Lemma records_no_crlf input : no_crlf input = true -> records 10%Z true input = records 10%Z false input.
+Proof.
+  intros H. unfold records.
+  assert (H0 : ~ (hd 0%Z (@nil Z) = 13%Z /\ hd 0%Z input = 10%Z)) by (simpl; intros [E _]; discriminate).
+  pose proof (split_at_no_crlf input [] H0 H) as HS.
+  destruct (split_at 10%Z input []) as [rs t]. rewrite HS. rewrite map_id. reflexivity.
+Qed.
+
+(* partial: without a CR directly before a LF the output lines are the input lines, byte for byte *)
+Theorem shard_lines_bytewise_partial keyhash n input : 0 < n -> no_crlf input = true ->
+  Permutation (concat (shard keyhash n (records 10%Z shard_strip_cr input))) (records 10%Z false input).
+Proof.
+  intros Hn H. change shard_strip_cr with true. rewrite records_no_crlf by exact H.
+  apply shard_partition. exact Hn.
+Qed.
+
+(* refuted in general: "a\r\n" comes out as "a\n" *)
+Theorem shard_lines_bytewise_refuted :
+  exists (keyhash : list Z -> N) n input, 0 < n /\
+    ~ Permutation (concat (shard keyhash n (records 10%Z shard_strip_cr input))) (records 10%Z false input).
+Proof.
+  exists (fun _ => 0), 1, [97; 13; 10]%Z. split; [lia|].
+  vm_compute. intros H. apply Permutation_length_1 in H. discriminate.
+Qed.
